@@ -362,10 +362,13 @@ EvGen == IsEv /\ X.e = "gen" /\
 
 EvWhile == IsEv /\ X.e = "while" /\
   Go([st EXCEPT !.c = Ev(X.c), !.k = Push(st.k, [f |-> "while", c |-> X.c, body |-> X.body, env |-> st.e, inbody |-> FALSE])])
+(* for x in s | c repeat body: the body runs for the elements that satisfy c, i.e. each round is `if c then body` *)
+LoopBody(x) == IF "filt" \in DOMAIN x /\ x.filt.e # "none"
+               THEN [e |-> "if", c |-> x.filt, a |-> x.body, b |-> [e |-> "unit"]] ELSE x.body
 EvFor == IsEv /\ X.e = "for" /\      \* for x in lo..hi repeat body
-  GoAny(StartArgs([w |-> "for", x |-> X.x, body |-> X.body], <<X.lo, X.hi>>))
+  GoAny(StartArgs([w |-> "for", x |-> X.x, body |-> LoopBody(X)], <<X.lo, X.hi>>))
 EvForIn == IsEv /\ X.e = "forin" /\  \* for x in <list or generator> repeat body
-  GoAny(StartArgs([w |-> "forin", x |-> X.x, body |-> X.body], <<X.src>>))
+  GoAny(StartArgs([w |-> "forin", x |-> X.x, body |-> LoopBody(X)], <<X.src>>))
 
 EvBreak == IsEv /\ X.e = "break"   /\ Go([st EXCEPT !.c = [k |-> "brk"]])
 EvIter  == IsEv /\ X.e = "iterate" /\ Go([st EXCEPT !.c = [k |-> "iter"]])
